@@ -1367,6 +1367,9 @@ func (c *control) dirAS(colon, at bool, params []any, p *slip.Printer) {
 		arg = c.args[c.argPos]
 		c.argPos++
 	}
+	if colon && isNil(arg) {
+		arg = nil // the empty list is output as () as well
+	}
 	switch ta := arg.(type) {
 	case nil:
 		if colon {
@@ -1493,6 +1496,15 @@ func (c *control) dirTilde(colon, at bool, params []any) {
 	}
 }
 
+// isNil returns true for nil and for the empty list.
+func isNil(obj slip.Object) bool {
+	if obj == nil {
+		return true
+	}
+	list, ok := obj.(slip.List)
+	return ok && len(list) == 0
+}
+
 func (c *control) dirCond(colon, at bool, params []any) {
 	n := -1
 	if 0 < len(params) {
@@ -1520,7 +1532,7 @@ func (c *control) dirCond(colon, at bool, params []any) {
 		if len(strs) != 2 || 0 < len(def) {
 			slip.ErrorPanic(c.scope, 0, "invalid form for conditional directive with : modifier at %d of %q", c.pos, c.str)
 		}
-		if arg == nil {
+		if isNil(arg) {
 			c.subProcess(strs[0])
 		} else {
 			c.subProcess(strs[1])
@@ -1529,7 +1541,7 @@ func (c *control) dirCond(colon, at bool, params []any) {
 		if len(strs) != 1 || 0 < len(def) {
 			slip.ErrorPanic(c.scope, 0, "invalid form for conditional directive with @ modifier at %d of %q", c.pos, c.str)
 		}
-		if arg != nil {
+		if !isNil(arg) {
 			c.argPos--
 			c.subProcess(strs[0])
 		}
